@@ -24,7 +24,8 @@ const int KEYS[] = {1, 2, 3, 4, 8, 16, 64, 1000, 60000};
 const int NKEYS = 9;
 const size_t MAXLIVE[] = {1000000, 2, 3, 4, 6, 8, 10, 12};
 
-int g_priv_token, g_cmp_kind, g_mod;
+int g_priv_token, g_clear_token, g_cmp_kind, g_mod;      // (the comparison priv and the clear priv are different pointers)
+bool g_null_val;        // some entries store a NULL value pointer (the map as a set)
 // keys are opaque pointers to the map: a NULL key pointer is a key like any other (an integer 0 stored in the pointer).
 // In "null key" cases (header byte 2, bit 7) the value 0 is represented by the NULL pointer.
 bool g_null_key;
@@ -32,7 +33,7 @@ static inline int kval(const void *k) { return k ? ((const struct KeyCell *)k)->
 int key_class(int v) { return g_cmp_kind == 2 ? v % g_mod : v; }
 int cmp_cb(const void *a, const void *b, void *p)
 {
-    CHECK_NOTHROW(p == &g_priv_token, "C08.cmp.priv", "compare function received a different priv pointer");
+    CHECK_NOTHROW(p == &g_priv_token, g_prop == "C15" ? "C15.map.reuse" : "C08.cmp.priv", "compare function received a different priv pointer");
     int x = key_class(kval(a)), y = key_class(kval(b));
     // any negative / zero / positive int is a valid answer: differences, +-1, and values that do not fit a short or a char
     if (g_cmp_kind == 3) return x < y ? -2000000000 : x > y ? 2000000000 : 0;
@@ -63,7 +64,11 @@ struct Map {
         if (g_null_key && v == 0) return nullptr;
         KeyCell *k = (KeyCell *)malloc(sizeof *k); k->value = v; k->id = next_id++; cells.insert(k); return k;
     }
-    ValCell *mkval() { ValCell *v = (ValCell *)malloc(sizeof *v); v->id = next_id++; v->tag = 0x11223344; cells.insert(v); return v; }
+    ValCell *mkval()
+    {
+        if (g_null_val && (next_id++ % 3) == 0) return nullptr;
+        ValCell *v = (ValCell *)malloc(sizeof *v); v->id = next_id++; v->tag = 0x11223344; cells.insert(v); return v;
+    }
     void freecell(void *c, size_t sz)
     {
         if (!c) return;         // the NULL key
@@ -79,7 +84,7 @@ void clear_cb(void *obj, void *priv)
     HarnessScope hs;
     ClearCtx *c = g_clear_ctx;
     c->calls++;
-    if (priv != &g_priv_token) { c->bad = true; return; }
+    if (priv != &g_clear_token) { c->bad = true; return; }
     cstl_map_iterator_t *it = (cstl_map_iterator_t *)obj;
     // the iterator must carry the stored key and value pointers of one entry, once
     for (auto kv = c->expect->begin(); kv != c->expect->end(); ++kv) {
@@ -311,7 +316,7 @@ void apply(Map &mp, CaseCtx &cx, int op, uint8_t a, uint8_t b, int K, size_t max
         size_t n = mp.model.size();
         ClearCtx cc{&mp, &expect, 0, false};
         g_clear_ctx = &cc;
-        LIB(cstl_map_clear(&mp.m, op == CLEAR_CB ? clear_cb : nullptr, &g_priv_token));
+        LIB(cstl_map_clear(&mp.m, op == CLEAR_CB ? clear_cb : nullptr, &g_clear_token));
         g_clear_ctx = nullptr;
         TRACE("%s %s (n=%zu) callbacks=%zu", mp.tag, OPN[op], n, cc.calls);
         if (op == CLEAR_CB) {
@@ -349,7 +354,7 @@ void vf_run(const uint8_t *data, size_t len)
     Cursor cur(data, len);
     int K = KEYS[cur.u8() % NKEYS];
     g_cmp_kind = cur.u8() % 5;
-    { uint8_t mb = cur.u8(); g_mod = 2 + (mb & 0x7f) % 5; g_null_key = (mb & 0x80) != 0; }
+    { uint8_t mb = cur.u8(); g_mod = 2 + (mb & 0x3f) % 5; g_null_key = (mb & 0x80) != 0; g_null_val = (mb & 0x40) != 0; }
     size_t maxlive = MAXLIVE[cur.u8() % 8];
     int prof = cur.u8() % NPROFILES;
     bool c15 = g_prop == "C15", c16 = g_prop == "C16";
